@@ -245,6 +245,11 @@ def _run(plan, dfs, collect):
             # pass by position only when the value was given under the parameter's own name
             if f["name"] in kw and not f["alias"]:
                 pos.append(kw.pop(f["name"]))
+                # a call that gives one parameter by position and again under another spelling is not a call
+                # Python would bind ("multiple values for argument"): drop the other spellings
+                for k in list(kw):
+                    if k.lower() in [s_.lower() for s_ in [f["name"]] + f["alias_from"]]:
+                        kw.pop(k)
             else:
                 break
     try:
